@@ -615,7 +615,18 @@ async fn observe_client(dev: &mut Dev, decrypt: bool) -> Result<Value> {
             for (v, sid, name) in external_files(s.id(), &row) {
                 let key = format!("{}/{}/{}", v, sid, name);
                 let val = if decrypt {
-                    match dev.account.download_file(&v, &sid, &name).await {
+                    // age's speed-dependent work-factor bound: retried under load
+                    let mut r = dev.account.download_file(&v, &sid, &name).await;
+                    for _ in 0..10 {
+                        match &r {
+                            Err(e) if e.to_string().to_lowercase().contains("work parameter") => {
+                                tokio::time::sleep(std::time::Duration::from_secs(2)).await;
+                                r = dev.account.download_file(&v, &sid, &name).await;
+                            }
+                            _ => break,
+                        }
+                    }
+                    match r {
                         Ok(b) => fsutil::sha256_hex(&b),
                         Err(e) => format!("<unreadable: {}>", norm_msg(&e.to_string())),
                     }
